@@ -12,7 +12,7 @@ From Coq Require Import List Bool String.
 From UV.Base Require Import Cop Res.
 From UV.Gen Require Import Tables.
 From UV.Py Require Import PyStr.
-From UV.Schemes Require Import Common Generic LegacyOpenssl Semver SemverProofs Gem GemProofs Rpm RpmProofs.
+From UV.Schemes Require Import Common Generic LegacyOpenssl Semver SemverProofs Gem GemProofs Rpm RpmProofs Debian DebianProofs DebianHash.
 Import ListNotations.
 
 Lemma all_vclasses_complete c : In c all_vclasses.
@@ -61,6 +61,11 @@ Proof. intros a b. split; [apply gem_eq_hash|apply gem_eq_iff_order]. Qed.
 Theorem C12_rpm_equal_versions_hash_alike : forall a b, rpm_order a b = Eq -> rpm_hasheq a b = true.
 Proof. exact rpm_eq_hash. Qed.
 
+(* deb: versions that compare equal (1.0 and 1.00, 1.0-0 and 1.0) have the same epoch and the same parts *)
+Theorem C12_deb_equal_versions_hash_alike :
+  forall a b, dok a = true -> dok b = true -> deb_cmp a b = Eq -> deb_hasheq a b = true.
+Proof. exact deb_eq_hash. Qed.
+
 Print Assumptions C12_every_version_class_is_hashable_and_frozen.
 Print Assumptions C12_containers_hash_what_they_compare.
 Print Assumptions C12_generic_equal_versions_hash_alike.
@@ -68,3 +73,4 @@ Print Assumptions C12_legacy_openssl_equal_versions_hash_alike.
 Print Assumptions C12_semver_equal_versions_hash_alike.
 Print Assumptions C12_gem_equal_versions_hash_alike.
 Print Assumptions C12_rpm_equal_versions_hash_alike.
+Print Assumptions C12_deb_equal_versions_hash_alike.
